@@ -27,6 +27,8 @@ import (
 	bfuse "bazil.org/fuse"
 	"bazil.org/fuse/fs"
 
+	"github.com/jech/storrent/bitmap"
+	"github.com/jech/storrent/config"
 	sfuse "github.com/jech/storrent/fuse"
 	"github.com/jech/storrent/peer"
 	"github.com/jech/storrent/tor"
@@ -117,8 +119,8 @@ func (ru *Runner) xDirect(snap []tor.VerifRequestedPiece) {
 		cl := isClosed(d.ch)
 		if cl && d.closedAt < 0 {
 			d.closedAt = len(ru.Lines)
-			if !verified && present[d.piece] && !d.gaveUp {
-				ru.violate("wake:unjustified", fmt.Sprintf("channel #%d of piece %d is closed although the piece has not been verified since it was handed out and is still requested", k, d.piece))
+			if !verified && !d.gaveUp && d.prio > int(tor.IdlePriority) {
+				ru.violate("wake:unjustified", fmt.Sprintf("channel #%d of piece %d (priority %d) is closed although the piece has not been verified since it was handed out and its consumer has not withdrawn (still requested: %v)", k, d.piece, d.prio, present[d.piece]))
 			}
 		}
 		if !cl && verified {
@@ -216,6 +218,7 @@ func (ru *Runner) execX(ws []string) {
 		buf := make([]byte, n)
 		res := make(chan readRes, 1)
 		rs.pend = &pendRead{int(n), buf, res}
+		rs.ctx.errs.Store(0)
 		go func() {
 			var k int
 			var err error
@@ -260,7 +263,7 @@ func (ru *Runner) execX(ws []string) {
 		}
 	case "garbage":
 		if i, ok := piece(2); ok {
-			ru.S.Garbage(i, i%2 == 0)
+			ru.S.Garbage(i, i%2 == 0 || (len(ws) > 3 && ws[3] == "w"))
 		}
 	case "evict":
 		if i, ok := piece(2); ok {
@@ -285,6 +288,89 @@ func (ru *Runner) execX(ws []string) {
 				rs.closed = true
 			}
 		}
+	case "bys":
+		// an event of the loop that is none of the consumers' business: it must leave
+		// their priorities and their channels alone
+		if ru.S.Held() || ru.dead || len(ws) < 3 {
+			return
+		}
+		t := ru.S.T
+		send := func(e peer.TorEvent) {
+			select {
+			case t.Event <- e:
+			case <-t.Done:
+			}
+		}
+		switch ws[2] {
+		case "conf": // rdx bys conf <dht 0..2> <trackers 0|1> <webseeds 0|1>
+			d, ok1 := num(3)
+			tr, ok2 := num(4)
+			wb, ok3 := num(5)
+			if ok1 && ok2 && ok3 && d >= 0 && d <= 2 {
+				t.SetConf(peer.TorConf{DhtMode: config.DhtMode(d), UseTrackers: tr == 1, UseWebseeds: wb == 1})
+				ru.webOn = wb == 1
+			}
+		case "phave": // rdx bys phave <i> <0|1>: some peer gained / lost piece i
+			if i, ok := piece(3); ok {
+				b, _ := num(4)
+				if b == 1 {
+					ru.avail[i]++
+					send(peer.TorPeerHave{Index: i, Have: true})
+				} else if ru.avail[i] > 0 {
+					ru.avail[i]--
+					send(peer.TorPeerHave{Index: i, Have: false})
+				}
+			}
+		case "pbitmap": // a peer with every live piece arrives (1) / leaves (0)
+			b, _ := num(3)
+			bm := bitmap.New(ru.S.N)
+			for i := ru.S.Lo; i <= ru.S.Hi; i++ {
+				bm.Set(i)
+			}
+			if b == 1 {
+				ru.seeds++
+				send(peer.TorPeerBitmap{Bitmap: bm, Have: true})
+			} else if ru.seeds > 0 {
+				ru.seeds--
+				send(peer.TorPeerBitmap{Bitmap: bm, Have: false})
+			}
+		case "unchoke":
+			send(peer.TorPeerUnchoke{Unchoke: true})
+			// a peer unchoking us makes the loop look for work (maybeRequest).  While a
+			// consumer wants a piece that can be fetched (some peer has it, or a web seed
+			// is enabled) the request ticker must stay armed afterwards: whatever is in
+			// flight or being hashed now may be lost (hash failure, eviction, the peer
+			// leaving) and only the next tick asks again.
+			if snap, ok := ru.S.Snapshot(); ok && ru.S.Interval >= 0 {
+				for _, e := range snap {
+					i := e.Index
+					client := false
+					for _, p := range e.Prio {
+						client = client || p > tor.IdlePriority
+					}
+					// (without web seeds and without connected peers the loop rightly stops polling)
+					fetchable := ru.webCfg && ru.webOn
+					if client && fetchable && int(i) < len(ru.complete) && !ru.complete[i] && ru.S.Interval == 0 {
+						ru.violate("sched:ticker-stopped", fmt.Sprintf("piece %d is wanted at %v, not complete and fetchable, but the request ticker is stopped after an unchoke: nothing will ask for it again", i, e.Prio))
+						break
+					}
+				}
+			}
+		case "interested":
+			send(peer.TorPeerInterested{Interested: true})
+		case "announce":
+			send(peer.TorAnnounce{IPv6: len(ws) > 3 && ws[3] == "1"})
+		case "stats":
+			t.GetStats()
+		case "avail":
+			t.GetAvailable()
+		case "droppeer":
+			t.DropPeer()
+		default:
+			return
+		}
+		sync()
+		ru.tag("x:bys:" + ws[2])
 	case "fill":
 		if ru.S.Held() {
 			ru.S.Fill()
@@ -577,6 +663,7 @@ func (ru *Runner) fuseSettle() {
 					ru.fuseFinish(fr, x)
 				case <-time.After(ru.Watchdog):
 					fr.done = true
+					fr.cancel()
 					ru.violate("hang:fuse", fmt.Sprintf("read #%d (off %d size %d) on handle %d did not return although its data is verified and in memory", fr.id, fr.off, fr.size, hid))
 				}
 			} else {
